@@ -194,8 +194,10 @@ Fixpoint tr_reorged (sc : script) (h : N) (us : list (N * N)) (t : tower) : list
       end
   end.
 
-(* rebroadcast_stale_txs: per stale tracker (SQL order): send penalty, UPDATE trackers unless rejected *)
-Fixpoint tr_stale (sc : script) (h : N) (us : list (N * N)) (t : tower) : list micro :=
+(* rebroadcast_stale_txs: per stale tracker (SQL order = the order the trackers were inserted in, which for
+   trackers created in one block is the HashMap order of that block's breaches): send penalty, UPDATE
+   trackers unless rejected *)
+Fixpoint tr_stale (sc : script) (h : N) (us : list (N * N)) (t : tower) : list (list micro) :=
   match us with
   | [] => []
   | uuid :: r =>
@@ -203,12 +205,14 @@ Fixpoint tr_stale (sc : script) (h : N) (us : list (N * N)) (t : tower) : list m
       | None => []
       | Some k =>
           let s1 := send_transaction sc t (t_penalty k) in
-          tr_send sc t (t_penalty k) ++
           match fst s1 with
-          | Rejected _ => tr_stale sc h r (snd s1)
-          | ConfirmedIn hh => MStmt (SUpdTrk uuid hh true) :: tr_stale sc h r (set_trk_status (snd s1) uuid hh true)
-          | InMempoolSince hh => MStmt (SUpdTrk uuid hh false) :: tr_stale sc h r (set_trk_status (snd s1) uuid hh false)
-          | IrrevocablyResolved => MStmt (SUpdTrk uuid h false) :: tr_stale sc h r (set_trk_status (snd s1) uuid h false)
+          | Rejected _ => tr_send sc t (t_penalty k) :: tr_stale sc h r (snd s1)
+          | ConfirmedIn hh =>
+              (tr_send sc t (t_penalty k) ++ [MStmt (SUpdTrk uuid hh true)]) :: tr_stale sc h r (set_trk_status (snd s1) uuid hh true)
+          | InMempoolSince hh =>
+              (tr_send sc t (t_penalty k) ++ [MStmt (SUpdTrk uuid hh false)]) :: tr_stale sc h r (set_trk_status (snd s1) uuid hh false)
+          | IrrevocablyResolved =>
+              (tr_send sc t (t_penalty k) ++ [MStmt (SUpdTrk uuid h false)]) :: tr_stale sc h r (set_trk_status (snd s1) uuid h false)
           end
       end
   end.
@@ -236,7 +240,7 @@ Definition tr_r_block (le : bool) (sc : script) (t : tower) (b : iblock N) (h : 
                   | None => []
                   | Some lim =>
                       let stale := map trk_uuid (filter (fun k => negb (t_conf k) && N.leb (t_height k) lim) (db_trks t4)) in
-                      Seq (tr_stale sc h stale t4) ::
+                      Par (tr_stale sc h stale t4) ::
                       match stale_loop sc h stale t4 [] with
                       | Abort _ _ => []
                       | Ok rej2 t5 => [Seq (match rej1 ++ rej2 with [] => [] | l => tr_delete t5 l false end)]
